@@ -1,4 +1,5 @@
 import SLE.Lemmas.VMap
+import SLE.Lemmas.DS
 /-!
 # C19 — the vector map and the union-find forest match their abstract models
 
@@ -75,6 +76,72 @@ theorem C19_vm_history_empty (ops : List (MOp V)) :
 /-- `remove` cannot underflow the size counter. -/
 theorem C19_vm_no_fault (m : VMap V) (k : Nat) (h : WF m) : ∃ r, m.remove k = .ok r :=
   remove_no_fault m k h
+
+/-! ### The union-find forest (statements proved in `SLE/Lemmas/DS.lean`)
+
+`DS.Inv` = both vector maps well-formed + the parent map is acyclic (a rank function exists).
+`DS.rootOf` = pure parent chase.  `Naive` = the naive partition: registered elements, a
+class-representative function and data per representative — no forest, no compression. -/
+
+section Forest
+variable {D : Type}
+open SLE.Containers.DS
+
+/-- `find` never runs out of fuel, returns the root, the result is a root, path compression
+changes no element's root and no data. -/
+theorem C19_find (s : DS D) (v : Nat) (h : Inv s) :
+    ∃ s' r, s.find v = .ok (s', r) ∧ Inv s' ∧ r = rootOf s v ∧
+      (∀ w, rootOf s' w = rootOf s w) ∧ s'.data = s.data ∧ s'.reps.get r = some r :=
+  find_spec s v h
+
+/-- `union` joins exactly the two classes and combines their data exactly once; a union of
+already-joined elements changes nothing (no duplication), nothing is lost. -/
+theorem C19_union (M : Monoid D) (s : DS D) (a b : Nat) (h : Inv s) :
+    ∃ s', s.union M a b = .ok s' ∧ Inv s' ∧
+      (∀ w, s'.mem w = (s.mem w || decide (w = a) || decide (w = b))) ∧
+      (rootOf s a = rootOf s b →
+        (∀ w, rootOf s' w = rootOf s w) ∧ s'.data = s.data) ∧
+      (rootOf s a ≠ rootOf s b →
+        (∀ w, rootOf s' w = if rootOf s w = rootOf s b then rootOf s a else rootOf s w) ∧
+        ∀ k, s'.data.get k =
+          if k = rootOf s a then
+            some (M.combine (dataAt M s (rootOf s a)) (dataAt M s (rootOf s b)))
+          else if k = rootOf s b then none else s.data.get k) :=
+  union_spec M s a b h
+
+theorem C19_add_data (M : Monoid D) (s : DS D) (v : Nat) (d : D) (h : Inv s) :
+    ∃ s', s.addData M v d = .ok s' ∧ Inv s' ∧ (∀ w, rootOf s' w = rootOf s w) ∧
+      (∀ k, s'.data.get k =
+        if k = rootOf s v then some (M.combine (dataAt M s (rootOf s v)) d) else s.data.get k) ∧
+      (∀ w, s'.mem w = (s.mem w || decide (w = v))) :=
+  addData_spec M s v d h
+
+theorem C19_get_data (s : DS D) (v : Nat) (h : Inv s) :
+    ∃ s', s.getData v = .ok (s', s.data.get (rootOf s v)) ∧ Inv s' ∧
+      (∀ w, rootOf s' w = rootOf s w) ∧ s'.data = s.data ∧
+      (∀ w, s'.mem w = (s.mem w || decide (w = v))) :=
+  getData_spec s v h
+
+/-- Every history from the empty forest: no fault (no fuel exhaustion, no size underflow). -/
+theorem C19_history_no_fault (M : Monoid D) (ops : List (Op D)) :
+    Inv (run M DS.empty ops).1 ∧ ∀ o ∈ (run M DS.empty ops).2, ∀ f, o ≠ .fault f :=
+  history_no_fault M ops
+
+/-- Every history from the empty forest: the forest represents the naive partition's final
+state and every observation (`find`, `get_data`, `sets`, `values`) is one the naive
+partition allows. -/
+theorem C19_history (M : Monoid D) (ops : List (Op D)) :
+    Abs (run M DS.empty ops).1 (Naive.run M Naive.empty ops).1 ∧
+    ObsMatch (run M DS.empty ops).2 (Naive.run M Naive.empty ops).2 :=
+  history_refines M ops
+
+/-- Same partition: two elements share a root iff the naive partition puts them together. -/
+theorem C19_same_partition (M : Monoid D) (ops : List (Op D)) (a b : Nat) :
+    rootOf (run M DS.empty ops).1 a = rootOf (run M DS.empty ops).1 b ↔
+      (Naive.run M Naive.empty ops).1.sameClass a b :=
+  history_sameClass M ops a b
+
+end Forest
 
 /-! ### Non-vacuity -/
 example : ((VMap.empty : VMap Nat).insert 3 7 |>.insert 3 8).len = 1 := by decide
